@@ -31,6 +31,7 @@ ASSUMPTIONS = [
     "The workspace is uncorrupted (corruption is C09's subject).",
     "Open-by-id is only checked for ids of existing jobs (a stale cache may legitimately resolve removed ids).",
 ]
+MANIFEST = {"technique": 'runtime monitoring: three observer sessions (long-lived, fresh, fresh without cache file) vs model after every history step; FS-call monitor on update_cache', "engine": 'fs-call monitor (audit hook)'}
 TIME_CAP = {"quick": 70, "thorough": 1500}
 
 UNIVERSE = [{"a": 0}, {"a": 1}, {"a": 2}, {"a": 1.0}, {"a": "1"}, {"a": 0, "b": 1}, {"a": 2, "b": {"x": 1}}, {"b": True}]
